@@ -1,13 +1,21 @@
 //! xotharness — runs the real xot on generated cases and prints a transcript
 //! (`T<TAB>request<TAB>response`), statistics (`S<TAB>key<TAB>count`) and oracle failures
 //! (`F<TAB>property<TAB>json`).
+mod build_bytes;
+mod build_faults;
+mod build_gen;
+mod build_obs;
+mod build_oracle;
+mod build_render;
 mod common;
 mod strings;
 mod suite_cmp;
 mod suite_axes;
+mod suite_build;
 mod suite_entity;
 mod suite_ffixed;
 mod suite_fmap;
+mod suite_fclone;
 mod suite_forest;
 mod suite_rt;
 mod idmap_hist;
@@ -56,6 +64,8 @@ fn main() {
         "ffixed" => suite_ffixed::run(seed, count, tier, &mut sink),
         "html" => suite_html::run(seed, count, tier, &mut sink),
         "fmap" => suite_fmap::run(seed, count, tier, &mut sink),
+        "build" => suite_build::run(seed, count, tier, &mut sink),
+        "fclone" => suite_fclone::run(seed, count, tier, &mut sink),
         _ => {
             eprintln!("unknown suite {}", suite);
             std::process::exit(2);
